@@ -7,5 +7,6 @@ CONSTANTS
     MaxPoolOps = 0
     CreateUnderLock = TRUE
     MayFail = TRUE
+    MayForget = TRUE
 INVARIANTS TypeOK MutexOK
 PROPERTIES GetReturns DropReturns
